@@ -328,11 +328,17 @@ Definition rank_of (sn : snapshot) (a : aid) : N :=
 Definition sup_of (sn : snapshot) (a : aid) : option aid :=
   match sget sn a with Some x => s_sup x | None => None end.
 
-(* still alive and linked to a supervisor afterwards: it was moved to another supervisor in this
-   window (by its own pending spawn_linked or an explicit relink) and left the subtree with
-   everything below it *)
-Definition moved_away (post : snapshot) (c : aid) : bool :=
-  negb (rank_of post c =? 6) && match sup_of post c with Some _ => true | None => false end.
+(* still alive afterwards and linked to a supervisor OTHER than the one it had before the window: it
+   was moved to another supervisor in this window (by its own pending spawn_linked or an explicit
+   relink) and left the subtree with everything below it.  An actor that is still under the
+   same supervisor is not exempt: had that supervisor been reached by the ancestor's terminate(),
+   its child set would have been taken. *)
+Definition osame (x y : option aid) : bool :=
+  match x, y with Some a, Some b => a =? b | None, None => true | _, _ => false end.
+
+Definition moved_away (pre post : snapshot) (c : aid) : bool :=
+  negb (rank_of post c =? 6)
+  && match sup_of post c with Some _ => negb (osame (sup_of pre c) (sup_of post c)) | None => false end.
 
 Fixpoint descendants (fuel : nat) (pre post : snapshot) (a : aid) : list aid :=
   match fuel with
@@ -340,7 +346,7 @@ Fixpoint descendants (fuel : nat) (pre post : snapshot) (a : aid) : list aid :=
   | S k =>
       match sget pre a with
       | Some x =>
-          let cs := filter (fun c => negb (moved_away post c)) (s_children x) in
+          let cs := filter (fun c => negb (moved_away pre post c)) (s_children x) in
           cs ++ flat_map (descendants k pre post) cs
       | None => []
       end
